@@ -112,6 +112,7 @@ func execC11c(c PortCase, _ *kit.Env) kit.Outcome {
 	}
 
 	s := &sched.Sched{MaxSteps: 40000}
+	s.YieldOnUnlock = sched.UnlockYields(c.Seed)
 	s.Choose = sched.ListChooser(c.Decisions, sched.MixedChooser(c.Seed, s))
 
 	if c.Decisions != nil {
